@@ -430,3 +430,151 @@ Section AbsSound.
       + rewrite U1. simpl. destruct (ieval rho e1 =? 0); assumption.
   Qed.
 End AbsSound.
+
+(* ================================================================ bytes and bits *)
+Lemma pow256 n : 256 ^ Z.of_nat n = 2 ^ (8 * Z.of_nat n).
+Proof. rewrite Z.pow_mul_r by lia. reflexivity. Qed.
+
+Definition byte_range (b:Z) : Prop := 0 <= b < 256.
+
+Lemma le_bytes_range n : forall z, Forall byte_range (le_bytes n z).
+Proof. induction n; intros z; simpl; constructor; [apply Z.mod_pos_bound; lia|apply IHn]. Qed.
+
+Lemma le_bytes_bit n : forall z i t, (i < n)%nat -> 0 <= t < 8 ->
+  Z.testbit (nth i (le_bytes n z) 0) t = Z.testbit z (8 * Z.of_nat i + t).
+Proof.
+  induction n; intros z i t Hi Ht; [lia|]. destruct i as [|i]; cbn [le_bytes nth].
+  - change 256 with (2^8). rewrite Z.mod_pow2_bits_low by lia. f_equal; lia.
+  - rewrite IHn by lia. change 256 with (2^8). rewrite Z.div_pow2_bits by lia. f_equal; lia.
+Qed.
+
+Lemma of_le_range l : Forall byte_range l -> 0 <= of_le l < 256 ^ Z.of_nat (length l).
+Proof.
+  induction 1 as [|b r Hb Hr IH]; cbn [of_le length]; [simpl; lia|].
+  rewrite Nat2Z.inj_succ, Z.pow_succ_r by lia. unfold byte_range in Hb. lia.
+Qed.
+
+Lemma of_le_bit l : Forall byte_range l -> forall i t, (i < length l)%nat -> 0 <= t < 8 ->
+  Z.testbit (of_le l) (8 * Z.of_nat i + t) = Z.testbit (nth i l 0) t.
+Proof.
+  induction 1 as [|b r Hb Hr IH]; intros i t Hi Ht; [simpl in Hi; lia|].
+  unfold byte_range in Hb. cbn [of_le]. destruct i as [|i]; cbn [nth].
+  - replace (8 * Z.of_nat 0 + t) with t by lia.
+    rewrite <- (Z.mod_pow2_bits_low (b + 256 * of_le r) 8 t) by lia. f_equal.
+    change (2^8) with 256. symmetry. apply Z.mod_unique with (of_le r); lia.
+  - replace (8 * Z.of_nat (S i) + t) with ((8 * Z.of_nat i + t) + 8) by lia.
+    rewrite <- Z.div_pow2_bits by lia. change (2^8) with 256.
+    replace ((b + 256 * of_le r) / 256) with (of_le r); [apply IH; simpl in Hi; lia|].
+    apply Z.div_unique with b; lia.
+Qed.
+
+Lemma to_signed_bit n u i : (0 < n)%nat -> 0 <= u < 256 ^ Z.of_nat n -> 0 <= i ->
+  Z.testbit (to_signed n u) i = if i <? 8 * Z.of_nat n then Z.testbit u i else Z.testbit u (8 * Z.of_nat n - 1).
+Proof.
+  intros Hn Hu Hi. unfold to_signed. rewrite pow256 in *. set (w := 8 * Z.of_nat n) in *.
+  assert (Hw: 0 < w) by (unfold w; lia).
+  assert (P: 2^w = 2 * 2^(w-1)) by (rewrite <- Z.pow_succ_r by lia; f_equal; lia).
+  replace (2^w / 2) with (2^(w-1)) by (rewrite P, Z.mul_comm, Z.div_mul; lia).
+  rewrite <- (signed_bits u w i Hw Hu Hi).
+  destruct (u <? 2^(w-1)) eqn:A, (2^(w-1) <=? u) eqn:B; try reflexivity.
+  - apply Z.ltb_lt in A. apply Z.leb_le in B. lia.
+  - apply Z.ltb_ge in A. apply Z.leb_gt in B. lia.
+Qed.
+
+Lemma Forall2_of_nth {A B} (R:A -> B -> Prop) da db : forall l m, length l = length m ->
+  (forall i, (i < length l)%nat -> R (nth i l da) (nth i m db)) -> Forall2 R l m.
+Proof.
+  induction l as [|x l IH]; intros [|y m] L H; simpl in L; try discriminate; constructor.
+  - apply (H 0%nat). simpl. lia.
+  - apply IH; [lia|]. intros i Hi. apply (H (S i)). simpl. lia.
+Qed.
+
+Lemma Forall2_nth_rel {A B} (R:A -> B -> Prop) da db l m : Forall2 R l m -> forall i, (i < length l)%nat -> R (nth i l da) (nth i m db).
+Proof. induction 1; intros [|i] Hi; simpl in *; try lia; [assumption|apply IHForall2; lia]. Qed.
+
+Lemma Forall2_len {A B} (R:A -> B -> Prop) l m : Forall2 R l m -> length l = length m.
+Proof. induction 1; simpl; congruence. Qed.
+
+Lemma Forall2_skipn {A B} (R:A -> B -> Prop) : forall k l m, Forall2 R l m -> Forall2 R (skipn k l) (skipn k m).
+Proof. induction k; intros l m H; [exact H|]. destruct H; simpl; [constructor|now apply IHk]. Qed.
+
+Lemma Forall2_firstn {A B} (R:A -> B -> Prop) : forall k l m, Forall2 R l m -> Forall2 R (firstn k l) (firstn k m).
+Proof. induction k; intros l m H; [constructor|]. destruct H; simpl; constructor; [assumption|now apply IHk]. Qed.
+
+Lemma add_str_length len t : 0 <= len -> length (add_str len t) = Z.to_nat len.
+Proof.
+  intros H. unfold add_str, ztake, zrepeat, zlen. rewrite app_length, repeat_length, firstn_length. lia.
+Qed.
+
+Lemma add_ais_str_length cur len t : 0 <= len -> 0 <= cur -> cur + len <= max_data_len -> length (add_ais_str cur len t) = Z.to_nat len.
+Proof.
+  intros H C M. unfold add_ais_str, ztake, zrepeat, zlen, max_data_len in *.
+  rewrite app_length, repeat_length, map_length, firstn_length. lia.
+Qed.
+
+Lemma add_double_length n s v p : length (add_double n s v p) = n.
+Proof. unfold add_double. apply le_bytes_length. Qed.
+
+(* ================================================================ the setter run *)
+Section SetterSim.
+  Variable beta : nat -> Z.
+  Variable rho : env.
+
+  Definition byte_rel (ab:abyte) (b:Z) : Prop :=
+    match ab with
+    | ABits l => length l = 8%nat /\ byte_range b /\ forall t, (t < 8)%nat -> Z.testbit b (Z.of_nat t) = bt_val beta (nth t l B0)
+    | ADbl n s p d i => b = nth i (add_double n s (deval rho d) p) 0
+    | AOpq => True
+    end.
+
+  Variable g : aenv.
+  Hypothesis Harg : forall a x, ae_arg g a = Some x -> represents beta x (arg_int (e_args rho) a).
+  Hypothesis Hslot : forall k x, ae_slot g k = Some x -> represents beta x (slot_int (e_slots rho) k).
+
+  Lemma int_bytes_rel v z n : represents beta v z -> Forall2 byte_rel (map (byte_of v) (seq 0 n)) (add_int n z).
+  Proof.
+    intros R. unfold add_int. apply (Forall2_of_nth byte_rel AOpq 0).
+    - rewrite map_length, seq_length, le_bytes_length. reflexivity.
+    - rewrite map_length, seq_length. intros i Hi. rewrite nth_map_seq by exact Hi.
+      unfold byte_of, byte_rel. split; [rewrite map_length, seq_length; reflexivity|]. split.
+      + assert (F := le_bytes_range n (z mod 256 ^ Z.of_nat n)). rewrite Forall_forall in F. apply F.
+        apply nth_In. rewrite le_bytes_length. exact Hi.
+      + intros t Ht. rewrite le_bytes_bit by lia. rewrite nth_map_seq by exact Ht.
+        rewrite pow256. rewrite Z.mod_pow2_bits_low by lia.
+        replace (8 * Z.of_nat i + Z.of_nat t) with (Z.of_nat (8 * i + t)) by lia. apply R.
+  Qed.
+
+  Lemma opaque_rel k l : length l = k -> Forall2 byte_rel (repeat AOpq k) l.
+  Proof.
+    intros L. apply (Forall2_of_nth byte_rel AOpq 0); [rewrite repeat_length; congruence|].
+    intros i Hi. rewrite repeat_length in Hi. rewrite (nth_indep _ AOpq AOpq) by (rewrite repeat_length; lia).
+    rewrite nth_repeat. exact I.
+  Qed.
+
+  Lemma dbl_bytes_rel n s p d : Forall2 byte_rel (map (ADbl n s p d) (seq 0 n)) (add_double n s (deval rho d) p).
+  Proof.
+    apply (Forall2_of_nth byte_rel AOpq 0).
+    - rewrite map_length, seq_length, add_double_length. reflexivity.
+    - rewrite map_length, seq_length. intros i Hi. rewrite nth_map_seq by exact Hi. reflexivity.
+  Qed.
+
+  Lemma aset_sim w : forall ap ap' data, aset g w ap = Some ap' -> Forall2 byte_rel ap data ->
+    exists data', exec_w rho w data = Some data' /\ Forall2 byte_rel ap' data'.
+  Proof.
+    induction w; intros ap ap' data H R; cbn [aset] in H; try discriminate H; cbn [exec_w].
+    - inversion H; subst. eauto.
+    - destruct (aset g w1 ap) as [ap1|] eqn:E; [cbn [obind] in H|discriminate].
+      destruct (IHw1 _ _ _ E R) as [d1 [X1 R1]]. rewrite X1. eapply IHw2; eauto.
+    - destruct (abs g e) as [v|] eqn:E; [|discriminate]. inversion H; subst.
+      destruct (abs_sound beta g rho Harg Hslot e v E) as [Rv U]. rewrite U.
+      eexists; split; [reflexivity|]. apply Forall2_app; [exact R|]. now apply int_bytes_rel.
+    - destruct d; try discriminate; inversion H; subst; eexists; (split; [reflexivity|]);
+        (apply Forall2_app; [exact R|apply dbl_bytes_rel]).
+    - destruct (0 <=? len) eqn:L; [|discriminate]. apply Z.leb_le in L. inversion H; subst.
+      eexists; split; [reflexivity|]. apply Forall2_app; [exact R|]. apply opaque_rel. now apply add_str_length.
+    - destruct ((0 <=? len) && (Z.of_nat (length ap) + len <=? max_data_len)) eqn:L; [|discriminate].
+      apply andb_true_iff in L. destruct L as [L0 L1]. apply Z.leb_le in L0. apply Z.leb_le in L1. inversion H; subst.
+      eexists; split; [reflexivity|]. apply Forall2_app; [exact R|]. apply opaque_rel.
+      apply add_ais_str_length; unfold zlen; rewrite <- (Forall2_len _ _ _ R); lia.
+  Qed.
+End SetterSim.
